@@ -125,26 +125,26 @@ impl<'a> ScriptEvaluator<'a> {
         } else {
             match opcode {
                 all::OP_PUSHDATA1 => {
-                    if self.ip + 1 > self.n_bytes {
+                    if self.ip + 1 + 1 > self.n_bytes {
                         return Err(ScriptError::UnexpectedEof);
                     }
-                    let val = ScriptEvaluator::read_uint(&self.bytes[self.ip..], 1)?;
+                    let val = ScriptEvaluator::read_uint(&self.bytes[self.ip + 1..], 1)?;
                     self.ip += 1;
                     val
                 }
                 all::OP_PUSHDATA2 => {
-                    if self.ip + 2 > self.n_bytes {
+                    if self.ip + 1 + 2 > self.n_bytes {
                         return Err(ScriptError::UnexpectedEof);
                     }
-                    let val = ScriptEvaluator::read_uint(&self.bytes[self.ip..], 2)?;
+                    let val = ScriptEvaluator::read_uint(&self.bytes[self.ip + 1..], 2)?;
                     self.ip += 2;
                     val
                 }
                 all::OP_PUSHDATA4 => {
-                    if self.ip + 4 > self.n_bytes {
+                    if self.ip + 1 + 4 > self.n_bytes {
                         return Err(ScriptError::UnexpectedEof);
                     }
-                    let val = ScriptEvaluator::read_uint(&self.bytes[self.ip..], 4)?;
+                    let val = ScriptEvaluator::read_uint(&self.bytes[self.ip + 1..], 4)?;
                     self.ip += 4;
                     val
                 }
